@@ -1,12 +1,12 @@
-SPECIFICATION Spec
+SPECIFICATION MCSpec
 CONSTANTS
   Contents <- MCContentsSmall
-  Rids = {1, 2}
+  Rids = {1, 2, 3}
   MaxVersionArgs = {0, 1, 2}
   CustomPolicies = {"oddid", "oldserial", "none"}
   IdArgs = {1, 2, 3, 4, 9}
   SerialArgs = {1, 2, 7}
-  MaxCommits = 3
+  MaxCommits = 4
   MaxDepth = 9
 CONSTRAINT Bound
 INVARIANT TypeOK
